@@ -66,6 +66,8 @@ def gen(tier, rng, harness=None):
         from . import core3gen
         a = " ".join(core3gen.gen_func(rng))
         lines += ["core3.reparse " + a, "!core3.rt " + a]
+    from . import metagen
+    lines += metagen.print_lines(rng, n)
     for t in modprops.corpus_texts():
         lines.append("!mod.stable - %s" % hx(t))
     # every construct of the one-construct catalogue (all enum keywords, attributes, instructions, constants, constant expressions,
